@@ -153,8 +153,30 @@ class _Shape(ast.NodeTransformer):
         for fld in ('body', 'orelse', 'finalbody'):
             b = getattr(node, fld, None)
             if isinstance(b, list) and b and isinstance(b[0], ast.stmt):
-                setattr(node, fld, self._flatten(self._locks(self._strip(b))))
+                setattr(node, fld, self._flatten(self._unpack(self._locks(self._strip(b)))))
         return node
+
+    def _unpack(self, body):
+        """`a, t = X; b, c = t` (t used nowhere else)  ->  `a, (b, c) = X`"""
+        fn = self.funcs[-1] if getattr(self, 'funcs', None) else None
+        if fn is None:
+            return body
+        out = list(body)
+        i = 0
+        while i + 1 < len(out):
+            st, nx = out[i], out[i + 1]
+            if isinstance(st, ast.Assign) and len(st.targets) == 1 and isinstance(st.targets[0], ast.Tuple) and \
+                    isinstance(nx, ast.Assign) and len(nx.targets) == 1 and isinstance(nx.targets[0], ast.Tuple) and isinstance(nx.value, ast.Name) and \
+                    all(isinstance(e, ast.Name) for e in nx.targets[0].elts):
+                t = nx.value.id
+                slots = [k for k, e in enumerate(st.targets[0].elts) if isinstance(e, ast.Name) and e.id == t]
+                uses = [x for x in ast.walk(fn) if isinstance(x, ast.Name) and x.id == t]
+                if len(slots) == 1 and len(uses) == 2:
+                    st.targets[0].elts[slots[0]] = nx.targets[0]
+                    del out[i + 1]
+                    continue
+            i += 1
+        return out
 
     def _locks(self, body):
         """`X.acquire(); try: B finally: X.release()`  ->  `with X: B`   (and the awaited asyncio form -> `async with X: B`)"""
